@@ -16,6 +16,10 @@ CONSTRUCTS = [
     ("control-elif", ["% if False:", "a", "% elif {M}:", "b", "% endif"], 2),
     ("code-block", ["<%", "    q1 = 1", "    q2 = {M}", "%>"], 2),
     ("code-block-oneline", ["<% q3 = {M} %>"], 0),
+    ("code-block-trailing-space-after-open", ["<% ", "    q5 = {M}", "%>"], 1),
+    ("code-block-blank-indented-first-line", ["<%", "    ", "    q6 = {M}", "%>"], 2),
+    ("module-block-tab-after-open", ["<%!\t", "    Q7 = {M}", "%>"], 1),
+    ("expression-open-space-newline", ["${{ ", "     {M} }}"], 1),
     ("module-block", ["<%!", "    import os", "    Q4 = {M}", "%>"], 2),
     ("def-signature", ['<%def name="dsig(a={M})">', "body", "</%def>"], 0),
     ("def-body", ['<%def name="dbody()">', "   ${{ {M} }}", "</%def>"], 1),
